@@ -90,6 +90,8 @@ func cmdRun(args []string) int {
 	fn := fs.String("func", "", "harness function")
 	workers := fs.Int("workers", 8, "parallel workers")
 	sched := fs.Bool("sched", false, "explore schedules")
+	schedKinds := fs.String("schedkinds", "", "scheduling-point kinds (comma list; empty: all)")
+	schedSkip := fs.String("schedskip", "", "packages whose sync operations are not scheduling points")
 	loopcap := fs.Int("loopcap", 64, "solver-decided iterations per loop head")
 	maxpaths := fs.Int("maxpaths", 200000, "path budget")
 	qto := fs.Int("qtimeout", 20000, "solver timeout per query (ms)")
@@ -121,7 +123,7 @@ func cmdRun(args []string) int {
 		return 2
 	}
 	tl := time.Since(t0)
-	cfg := interp.Config{Workers: *workers, Sched: *sched, LoopCap: *loopcap, MaxPaths: *maxpaths, QueryTimeoutMS: *qto, Trace: *trace, Params: params, Setup: *setup, NoSnapshot: *nosnap}
+	cfg := interp.Config{Workers: *workers, Sched: *sched, SchedKinds: *schedKinds, SchedSkipPkgs: *schedSkip, LoopCap: *loopcap, MaxPaths: *maxpaths, QueryTimeoutMS: *qto, Trace: *trace, Params: params, Setup: *setup, NoSnapshot: *nosnap}
 	res := interp.Explore(l.prog, l.pkgs[*pkg], *fn, cfg)
 	printResult(res, *verbose)
 	fmt.Printf("load %.1fs explore %.1fs\n", tl.Seconds(), res.WallSeconds)
